@@ -370,6 +370,27 @@ func TestVerifC20(t *testing.T) {
 				ncs = append(ncs, c)
 			}
 		}
+		// the recoding is a pure function: calls from many goroutines at once, each with its own buffers and its own
+		// window width, give what they give alone (a lookup table rebuilt per width, a scratch array shared by all calls)
+		if len(ncs) > 0 {
+			nOps := hk.N(400000, 2000000)
+			hk.Parallel(nOps, func(i int) {
+				c := ncs[(i*5+i/7)%len(ncs)]
+				out := make([]int, 257)
+				p, msg, _, _ := hk.Try(func() { DecomposeNAF(out, c.s, 257, c.w) })
+				bad := -1
+				for k := range out {
+					if out[k] != c.want[k] {
+						bad = k
+						break
+					}
+				}
+				if p || bad >= 0 {
+					r.Violation("naf-wrong-when-called-from-many-goroutines-with-different-widths", hk.D{"s": hk.Hex(c.s), "w": c.w, "first_wrong_digit": bad, "panic": msg})
+				}
+			})
+			r.EvalN("naf:concurrent-calls-with-different-widths", nOps)
+		}
 		if len(ncs) > 0 {
 			hk.AtStackDepths(hk.N(700, 3000), 96<<10, 8, func(depth int) {
 				c := ncs[depth%len(ncs)]
